@@ -7,6 +7,28 @@ sys.path.insert(0, ROOT)
 from checks_config import PROPS, NOT_APPLICABLE  # noqa
 
 ids = [json.loads(l)["id"] for l in open(os.path.join(ROOT, "properties.jsonl")) if l.strip()]
+LEVEL = {
+ "C01": ("model-based PBT (rapid): operation histories interpreted against a reference sorted set, oracle after every step", "Exploration. A sorted-set model is compared with the tree after every single operation of generated histories (runs that force scapegoat and whole-tree rebuilds, clones, bulk construction, comparators returning magnitudes). The property quantifies over all histories; this explores tens of thousands (quick) to millions (thorough) of them and proves nothing beyond them."),
+ "C02": ("model-based PBT with an adaptive adversary; exact big-integer bound checked after every single operation; exhaustive New(n) heights", "Exploration. The height is measured through the public cursor API after every single insertion/removal of generated and adversarial histories and compared with the stated bound in exact arithmetic; New(n) is enumerated for every n up to a bound."),
+ "C03": ("model-based PBT: tree shape reconstructed through the cursor API, every navigation result compared with the sorted set", "Exploration over generated trees (skewed shapes included) and generated move sequences on two cursors; complete for each generated tree with respect to Cursor(key) and Next/Prev chains."),
+ "C04": ("model-based PBT against a reference sorted map; several live iterators; float keys incl. NaN", "Exploration over generated histories with three comparators, two copies of the map value, three live iterators, the zero map and a float-key leg."),
+ "C05": ("model-based PBT against a multiset model + executable deviation models for the two known findings; exhaustive Sort", "Exploration. Conservation clauses are strict; the minimality clause is strict wherever the known findings F1/F2 cannot have been exercised and is triaged by deviation models elsewhere (DESIGN 2.1)."),
+ "C06": ("model-based PBT: reported positions tracked per element identity and compared with Peek after every step", "Exploration over generated histories with an update callback; independent of heap order."),
+ "C07": ("model-based PBT against a reference slice + exhaustive op sequences for small preallocations", "Exploration: every op sequence over Add/Push/Pop/PopLast up to length 9/11 for NewSize(0..4) exhaustively, plus generated histories with long runs and larger preallocations."),
+ "C08": ("model-based PBT against a reference LRU (recency list) + deviation model for known finding F2", "Exploration. Accounting and exactly-once clauses are strict; the eviction choice is strict below the exposure of F2 and must follow the F2 deviation model above it."),
+ "C09": ("randomised concurrent workloads: Go race detector, porcupine linearizability check against the C08 model, quiescence accounting, deadlock detection", "Exploration of sampled schedules only: interleavings are not enumerated and a run is not reproducible; a recorded history is decided deterministically."),
+ "C10": ("model-based PBT: reference sequences, predecessor-identity cursor model, cycle model for rings", "Exploration over generated histories for each of the four structures; hangs are caught by a CPU-time watchdog."),
+ "C11": ("small-scope exhaustive enumeration + PBT: script executed against the inputs, minimality against an independent LCS table", "Exploration, exhaustive up to the stated length bounds (incl. aliased windows of one buffer), random beyond."),
+ "C12": ("small-scope exhaustive enumeration + PBT against independent O(n^2)/O(mn) reference optima", "Exploration, exhaustive up to the stated bounds, random beyond (incl. multi-scale and block-edit shapes)."),
+ "C13": ("small-scope exhaustive enumeration + PBT with an executable patch-application oracle", "Exploration, exhaustive for all pairs over 3 lines up to length 5/6 with 7 context sizes, random beyond."),
+ "C14": ("exhaustive + PBT: round trip, reference appliers written from the published format rules, GNU patch differential, native fuzzing (thorough)", "Exploration. External oracle GNU patch 2.7.6 (self-tested at run time); known finding F5 triaged by exact expectation."),
+ "C15": ("exhaustive + PBT: round trip, independent POSIX quote-removal scan, differential against dash and bash, native fuzzing (thorough)", "Exploration. External oracles dash/bash (self-tested at run time)."),
+ "C16": ("exhaustive + PBT: differential against an independent reference tokenizer and real shells; reader fragmentation; native fuzzing (thorough)", "Exploration, exhaustive over the six tokenizer classes up to length 6/7; all 378 single-cell mutants of the state table are killed by the quick tier."),
+ "C17": ("small-scope exhaustive enumeration + PBT against direct definitions", "Exploration, exhaustive for small lengths and all arguments around the valid range, random (incl. extreme ints) beyond."),
+ "C18": ("exhaustive operand combinations over a small universe + model-based PBT with behavioural aliasing probes", "Exploration."),
+ "C19": ("model-based PBT for the deterministic clauses + statistical test of the mean over thousands of independent counters", "Exploration; the unbiasedness clause is a statistical test with a stated band (8 standard errors; wider below for buffer sizes < 8), not reproducible bit for bit."),
+ "C20": ("exhaustive enumeration (all alignments and zero patterns; all strings over small alphabets; all pairs and triples) + PBT", "Exploration, exhaustive up to the stated bounds."),
+}
 checks = []
 for pid in ids:
     if pid not in PROPS:
@@ -21,11 +43,11 @@ for pid in ids:
         "engine": "go-rapid-harness",
         "level_claimed": {
             "category": "exploration",
-            "text": c.get("level_text", "Generated-input search against an explicit oracle; the property held on every generated case, nothing is proved."),
+            "text": c.get("level_text", LEVEL.get(pid, ("", "Generated-input search against an explicit oracle; the property held on every generated case, nothing is proved."))[1]),
             "design_ref": "DESIGN.md section 5/" + pid,
         },
         "level_note": c.get("level_note", "Trusted: Go toolchain, rapid v1.3.0, and the reference model/oracle written in /verif/harness (validated by planted defects)."),
-        "technique": c.get("technique", "property-based testing (rapid) against a reference model"),
+        "technique": LEVEL.get(pid, (c.get("technique", "property-based testing (rapid) against a reference model"),))[0],
     })
 na = [{"property_id": pid, "reason": NOT_APPLICABLE.get(pid, "no check built yet for this property (work in progress); it is not claimed")} for pid in ids if pid not in PROPS]
 m = {
